@@ -270,6 +270,127 @@ def _naive_order(prog: Program, col: Collector, refs: Refs):
               "neighbouring steps the wrong way round (the earlier step's `curr` must meet the later step's `prev`)", f.loc(pops[0]))
 
 
+def _lagged(prog: Program, col: Collector, refs: Refs):
+    """sarkka_bilmes_product: index arithmetic of the two branches, evaluated for durations 1..12 and periods 1..4.
+    Chunked branch (duration a multiple of the period P): the P strided slices `Slice(time, t, …, P, …)` partition 0..D-1 into P
+    classes of D // P steps each, factor t is shifted by P - t - 1, the block time variable has D // P steps.  Remainder branch
+    (R = D % P > 0): the recursive call receives the LAST D - R steps under a time variable of that size; the first R steps are
+    then folded in from right to left, step t shifted by R - t, and the result is shifted back by R (by R - 1 when there is no
+    complete chunk and step R - 1 itself is the starting result)."""
+    from .c04 import _NoEval
+    f = require_func(prog, "funsor.sum_product::sarkka_bilmes_product")
+    construct = f"{f.fq}::lag arithmetic"
+    # roles: duration <- .size ; period <- int(reduce(...)) ; remaining / truncated: locals of the remainder branch
+    dvar = pvar = None
+    for st in walk_no_nested(f.node):
+        if isinstance(st, ast.Assign) and len(st.targets) == 1 and isinstance(st.targets[0], ast.Name):
+            if norm(st.value).endswith(".size") and dvar is None:
+                dvar = st.targets[0].id
+            if isinstance(st.value, ast.Call) and norm(st.value.func) == "int" and st.value.args and isinstance(st.value.args[0], ast.Call) and norm(st.value.args[0].func).endswith("reduce"):
+                pvar = st.targets[0].id
+    rem_if = next((a for a in f.body if isinstance(a, ast.If) and isinstance(a.test, ast.Compare) and any(isinstance(y, ast.BinOp) and isinstance(y.op, ast.Mod) for y in ast.walk(a.test))), None)
+    if dvar is None or pvar is None or rem_if is None:
+        col.unresolved(construct, "duration / period locals or the remainder branch not found", f.loc())
+        return
+    slices = _slice_calls(f, refs)
+    chunk_slices = [c for c in slices if not any(y is c for y in ast.walk(rem_if))]
+    rem_slices = [c for c in slices if any(y is c for y in ast.walk(rem_if))]
+    chunk_loop = next((lp for lp in f.body if isinstance(lp, ast.For) and any(any(y is c for y in ast.walk(lp)) for c in chunk_slices)), None)
+    bints = sorted([sub for sub in ast.walk(f.node) if isinstance(sub, ast.Subscript) and norm(sub.value).endswith("Bint")], key=lambda x_: x_.lineno)
+    shifts = [c for c in ast.walk(f.node) if isinstance(c, ast.Call) and norm(c.func).endswith("_shift_funsor") and len(c.args) >= 2]
+    renames = [c for c in ast.walk(f.node) if isinstance(c, ast.Call) and norm(c.func).endswith("_shift_name") and len(c.args) == 2]
+    if len(chunk_slices) != 1 or len(rem_slices) != 1 or chunk_loop is None or len(bints) != 2:
+        col.unresolved(construct, f"expected one strided Slice in a loop over the period, one Slice and two declared sizes; found {len(chunk_slices)}/{len(rem_slices)}/{len(bints)}", f.loc())
+        return
+    tvar = chunk_loop.target.id if isinstance(chunk_loop.target, ast.Name) else None
+    rem_assigns = sorted([st for st in ast.walk(rem_if) if isinstance(st, (ast.Assign, ast.AugAssign))], key=lambda s_: s_.lineno)
+    rem_loop = next((lp for lp in rem_if.body if isinstance(lp, ast.For)), None)
+    inner_if = next((a for a in rem_if.body if isinstance(a, ast.If)), None)
+    bad = None
+    tried = 0
+    try:
+        for D in range(1, 13):
+            for P in range(1, 5):
+                env = {dvar: D, pvar: P}
+                tried += 1
+                if not _ev(rem_if.test, env):
+                    # chunked branch
+                    n_it = _ev(chunk_loop.iter.args[0], env) if isinstance(chunk_loop.iter, ast.Call) and norm(chunk_loop.iter.func) == "range" and len(chunk_loop.iter.args) == 1 else None
+                    if n_it != P:
+                        bad = bad or (D, P, f"the loop over the chunk positions runs {n_it} times, not {P}")
+                        continue
+                    classes, shs = [], []
+                    sh_call = next((c for c in shifts if any(y is c for y in ast.walk(chunk_loop))), None)
+                    for t in range(P):
+                        env[tvar] = t
+                        classes.append(_rng(chunk_slices[0], env))
+                        if sh_call is not None:
+                            shs.append(_ev(sh_call.args[1], env))
+                    flat = sorted(x for cl in classes for x in cl)
+                    if flat != list(range(D)) or any(len(cl) != D // P for cl in classes) or any(cl != list(range(t, D, P)) for t, cl in enumerate(classes)):
+                        bad = bad or (D, P, f"the strided slices select {classes}: not the {P} residue classes of 0..{D - 1}, {D // P} steps each")
+                    if shs and shs != [P - t - 1 for t in range(P)]:
+                        bad = bad or (D, P, f"the factors are shifted by {shs}, not by period - t - 1 = {[P - t - 1 for t in range(P)]}")
+                    sz = _ev(bints[-1].slice, env)
+                    if sz != D // P:
+                        bad = bad or (D, P, f"the block time variable is declared with {sz} steps, the blocks have {D // P}")
+                else:
+                    R, T = D % P, D - D % P
+                    for st in rem_assigns:
+                        if st.lineno < (inner_if.lineno if inner_if is not None else rem_if.lineno + 1000) and isinstance(st, ast.Assign) and isinstance(st.targets[0], ast.Name):
+                            try:
+                                env[st.targets[0].id] = _ev(st.value, env)
+                            except _NoEval:
+                                pass
+                    if inner_if is None:
+                        raise _NoEval("remainder branch shape")
+                    taken_body = bool(_ev(inner_if.test, env))
+                    branch = inner_if.body if taken_body else inner_if.orelse
+                    no_chunk = T == 0
+                    # the branch taken when there is no complete chunk is the one WITHOUT the recursive Slice
+                    has_slice = any(any(y is rem_slices[0] for y in ast.walk(st_)) for st_ in branch)
+                    if has_slice == no_chunk:
+                        bad = bad or (D, P, "the branch for 'no complete chunk' is taken exactly when there IS one (or the reverse)")
+                    for st in branch:
+                        if isinstance(st, ast.AugAssign) and isinstance(st.target, ast.Name):
+                            env[st.target.id] = _ev(ast.BinOp(left=ast.Name(id=st.target.id, ctx=ast.Load()), op=st.op, right=st.value), env)
+                    if not no_chunk:
+                        sel = _rng(rem_slices[0], env)
+                        if sel != list(range(R, D)):
+                            bad = bad or (D, P, f"the recursive call receives steps {sel}, not the last {T} steps {list(range(R, D))}")
+                        sz = _ev(bints[0].slice, env)
+                        if sz != T:
+                            bad = bad or (D, P, f"the truncated time variable is declared with {sz} steps, the truncated factor has {T}")
+                    # the sequential tail
+                    if rem_loop is None:
+                        raise _NoEval("remainder loop")
+                    it = rem_loop.iter
+                    rev = isinstance(it, ast.Call) and norm(it.func) == "reversed"
+                    inner = it.args[0] if rev else it
+                    n_rem = _ev(inner.args[0], env) if isinstance(inner, ast.Call) and norm(inner.func) == "range" and len(inner.args) == 1 else None
+                    want_n = R - 1 if no_chunk else R
+                    if n_rem != want_n or not rev:
+                        bad = bad or (D, P, f"the remaining steps are folded over {'reversed ' if rev else ''}range({n_rem}); the {want_n} steps before the "
+                                             f"{'starting step' if no_chunk else 'truncated part'} have to be folded from right to left")
+                    sh_call = next((c for c in shifts if any(y is c for y in ast.walk(rem_loop))), None)
+                    lv = rem_loop.target.id if isinstance(rem_loop.target, ast.Name) else None
+                    if sh_call is not None and lv is not None and n_rem is not None:
+                        for t in range(n_rem):
+                            env[lv] = t
+                            if _ev(sh_call.args[1], env) != n_rem - t:
+                                bad = bad or (D, P, f"step {t} of the remainder is shifted by {_ev(sh_call.args[1], env)}, not by {n_rem - t}")
+                    back = [c for c in renames if any(y is c for y in ast.walk(rem_if)) and not any(y is c for y in ast.walk(rem_loop))]
+                    if back and n_rem is not None:
+                        v = _ev(back[-1].args[1], env)
+                        if v != -n_rem:
+                            bad = bad or (D, P, f"the result is shifted back by {v}, not by {-n_rem}")
+    except _NoEval as ex:
+        col.unresolved(construct, f"index expressions not evaluated ({ex})", f.loc())
+        return
+    col.check(bad is None, construct, f"residue classes, shifts, declared sizes and the remainder fold agree for durations 1..12, periods 1..4 ({tried} cases)",
+              f"for duration {bad[0]} and period {bad[1]}: {bad[2]}" if bad else "", f.loc())
+
+
 def run(prog: Program, col: Collector, tier: str, refs: Optional[Refs] = None, cat: Optional[Catalogue] = None):
     refs = refs or Refs(prog)
     col.rule("R10.1", "parallel scan: pairs (2k, 2k+1), odd tail last, every step once, sizes consistent", floor=2)
@@ -278,4 +399,6 @@ def run(prog: Program, col: Collector, tier: str, refs: Optional[Refs] = None, c
     _segments(prog, col, refs)
     col.rule("R10.3", "the naive fold walks the time steps in increasing order", floor=1)
     _naive_order(prog, col, refs)
+    col.rule("R10.4", "time-lagged product: residue classes, shifts, declared sizes and the remainder fold", floor=1)
+    _lagged(prog, col, refs)
     return col
